@@ -191,6 +191,9 @@ func C08(r *eng.Run) {
 	c08Vectors(r)
 	r.Phase("vectors", t0, nil)
 	shapes := Shapes(r.Thorough())
+	if !r.Thorough() {
+		shapes = dedupe(append(shapes, WordShapes()...))
+	}
 	var exps []int
 	for q := -45; q <= 45; q++ {
 		exps = append(exps, q)
